@@ -54,7 +54,15 @@ def msg_result(msg) -> dict:
 
 def real_load(proto: str, line: str) -> dict:
     try:
-        return msg_result(_schema(proto).load(line))
+        sch = _schema(proto)
+        first = sch.load(line)
+        res = msg_result(first)
+        # the caller may reuse the decoded object (e.g. to build a reply): that must not leak into later decodes
+        first.payload, first.ack, first.command = "mutated-by-the-caller", 1 - int(first.ack), 0
+        again = msg_result(_schema(proto).load(line))
+        if again != res:
+            return {"k": "other", "cls": "second decode of the same line differs: " + json.dumps(again)[:120]}
+        return res
     except ValidationError:
         return {"k": "invalid"}
     except BaseException as err:  # noqa: BLE001
@@ -87,6 +95,14 @@ def real_listen(loop, proto: str, line: str, hint: dict | None) -> dict:
     node = hint["n"] if hint and hint.get("k") == "msg" else None
     child = hint["c"] if hint and hint.get("k") == "msg" else None
     gw = _gateway(proto, node, child)
+    if len(line) % 4 == 1:   # a reused gateway object: the context was entered and left before
+        async def cycle():
+            async with gw:
+                pass
+        try:
+            loop.run_until_complete(cycle())
+        except BaseException as err:  # noqa: BLE001
+            return {"k": "other", "cls": "context cycle: " + type(err).__name__}
     gw.transport.lines.append(line)
     gen = gw.listen()
     try:
